@@ -492,7 +492,7 @@ FLATE_ASSUME = 'compress/flate is an oracle (Section variables dz / inflate), in
 COMMON_TRUSTED = [
     'extraction: Require Extraction + ExtrOcamlBasic only (bool/option/unit/list/prod/sumbool/sumor mapped to OCaml; N, Z, positive, nat stay inductive); no Extract Constant',
     'hand-written OCaml driver /verif/ocaml (hex, PRNG, digests) and Go harness /verif/harness; python orchestrator /verif/check',
-    'translator /verif/tools/constx (Go constants, validWireCloseCode, the switches of writeFrameHeader / readFrameHeader, readRSV1Illegal, CompressionMode.opts, the checks of readLoop / handleControl, the EOF codes of netConn.read -> coq/Gen/*.v)',
+    'translator /verif/tools/constx (Go constants, validWireCloseCode, the switches of writeFrameHeader / readFrameHeader, readRSV1Illegal, CompressionMode.opts, the checks of readLoop / handleControl, the EOF codes of netConn.read, verifyClientRequest, the decisions of writeFrame -> coq/Gen/*.v)',
 ]
 
 WIREIN_RULE = ('wire-in suite: seeded peer byte streams = 1-4 messages (plain / compressed at 5 deflate levels incl. stored and Huffman-only, '
@@ -707,7 +707,7 @@ PROPS = {
         assumptions=['the interleaving part of the quantifier (Write racing Close in another goroutine) is modelled by the single close-sent flag consulted under writeFrameMu; see C05'],
         level_text='Theorems: C16_nothing_after_close (every sequential program) and C16_all_interleavings (every schedule of any number of writers, pingers, closers, the read side echoing/answering with a Close, '
                    'outside closes): only Pings/Pongs follow a Close frame on the wire. Tie: the library\'s recorded frames against echoing peers, sequential histories incl. protocol-error closes.',
-        level_note='sequential Writer model theorem + all-interleavings theorem on Model/Sched.v (close-sent flag read and set under the frame lock) + C16_reader_at_most_one_close: for ANY input bytes and read script the read side (protocol-error closes, limit closes, echo) writes at most one Close frame and only Pongs around it.',
+        level_note='Source tie by translation: C16_refusal_is_source / C16_flag_is_source — the model refuses a frame after the Close frame exactly when the errCloseSent check of writeFrame, translated from write.go on every run (Gen/WriteCode.v), does, and sets the flag exactly when the source does (check before setting, no other assignment: the translator refuses the source otherwise). sequential Writer model theorem + all-interleavings theorem on Model/Sched.v (close-sent flag read and set under the frame lock) + C16_reader_at_most_one_close: for ANY input bytes and read script the read side (protocol-error closes, limit closes, echo) writes at most one Close frame and only Pongs around it.',
         technique='Coq proof (invariant over operation sequences) + differential run against a recording raw peer',
     ),
     'C03': dict(
@@ -763,7 +763,7 @@ PROPS = {
         level_text='Theorem C02_wf: for every program, role, option set, threshold, key supply and every compressor behaviour the Writer model\'s wire bytes parse back '
                    '(specification parser) to exactly the frames written and satisfy every conformance clause of the property. Tie: the library\'s recorded bytes equal the '
                    'model\'s bytes case by case, and the extracted specification decoder (+ inflate) is applied to the library\'s bytes as judge.',
-        level_note='Source tie by translation: C02_length_field_is_source / C02_length_bytes_is_source — the 7-bit length field and the extended-length bytes of the model are what the two switches of writeFrameHeader, translated from frame.go on every run (Gen/FrameCode.v), compute. Writer model hand-written from write.go/compress.go/frame.go; compressor is an oracle (C02_decodes states what an independent decoder reassembles for every compressor behaviour; inflation to the plaintext is checked by the judge with Go\'s inflater).',
+        level_note='C02_header_bits_are_source: RSV1 / MASK / RSV2 / RSV3 of every written frame are what writeFrame sets (Gen/WriteCode.v). Source tie by translation: C02_length_field_is_source / C02_length_bytes_is_source — the 7-bit length field and the extended-length bytes of the model are what the two switches of writeFrameHeader, translated from frame.go on every run (Gen/FrameCode.v), compute. Writer model hand-written from write.go/compress.go/frame.go; compressor is an oracle (C02_decodes states what an independent decoder reassembles for every compressor behaviour; inflation to the plaintext is checked by the judge with Go\'s inflater).',
         technique='Go->Gallina translation of the length switches of writeFrameHeader + Coq proof (invariant over operation sequences; decode∘encode) + differential run of the extracted model vs the library through Dial/Accept with a scripted raw peer',
     ),
     'C17': dict(
